@@ -219,7 +219,8 @@ def inputs_for(prop, tier):
             items.append({"pattern": "sync", "interval_ms": interval, "observe": 10})
             items.append({"pattern": "sync-busy", "interval_ms": interval, "observe": 8})
             # one periodic fsync fails: the ticks after it go on
-            items.append({"pattern": "sync-fault", "interval_ms": interval, "observe": 10})
+            # (observed for well over the scheduling slack of the judge, so that ticks that stop for good show)
+            items.append({"pattern": "sync-fault", "interval_ms": interval, "observe": 4000 // interval})
         for interval, jitter in ((150, 0.0), (200, 0.3)):
             items.append({"policy": "always", "pattern": "frag-fault", "interval_ms": interval, "jitter": jitter, "observe": 5})
             # a trigger crossed by deletes alone, after the task has already checked a few times and found nothing
